@@ -36,7 +36,8 @@ class ASTWalker:
             node = node.func
         elif isinstance(node, OverloadedFuncDef):
             if node.impl is not None:
-                node = node.impl
+                # The implementation can have decorators itself, e.g. for static methods
+                node = node.impl.func if isinstance(node.impl, Decorator) else node.impl
             elif node.is_property and isinstance(node.items[0], Decorator):
                 # Properties with a setter or deleter don't have an implementation, in that case we take the getter
                 node = node.items[0].func
@@ -56,7 +57,9 @@ class ASTWalker:
         if isinstance(node, MypyFile):
             definitions = get_mypyfile_definitions(node)
             child_nodes = [
-                _def for _def in definitions if _def.__class__.__name__ in {"FuncDef", "ClassDef", "Decorator"}
+                _def
+                for _def in definitions
+                if _def.__class__.__name__ in {"FuncDef", "ClassDef", "Decorator", "OverloadedFuncDef"}
             ]
         elif isinstance(node, ClassDef):
             definitions = get_classdef_definitions(node)
